@@ -97,3 +97,31 @@ Check (C19_nisp5_hidden_responses_masked :
     (N.to_nat (nth k U 0%N) < length msgs)%nat /\
     (2 ^ 64 <= nth k (sp_s5 p) 0 / sp_chal p - at_ msgs (nth k U 0%N))%Z).
 Print Assumptions C19_nisp5_hidden_responses_masked.
+
+(* END TO END for the issuance proof: every response about a hidden attribute is masked, whatever the attribute (0 included) and the hidden positions *)
+Theorem C19_nispm_hidden_responses_masked :
+  forall CS msgs C pk bases U ds p ds',
+  Forall bits_top ds ->
+  nispm_gen CS msgs C pk bases U ds = Ok (p, ds') ->
+  (321 <= lm CS + MASK)%Z ->
+  let U' := (if Nat.eqb (length msgs) 1 then [0%N] else option_default [0%N] U) in
+  exists sel, mapM (nthZ bases) U' = Ok sel /\
+    let c := hash_int (str_cat (sel ++ [pk_b pk; c_value C; nm_t p])) in
+    length (nm_s1 p) = length U' /\
+    ((0 < c < 2 ^ 256)%Z ->
+     forall k, (k < length U')%nat ->
+       (2 ^ 64 <= nth k (nm_s1 p) 0 / c - nth (N.to_nat (nth k U' 0%N)) msgs 1)%Z).
+Proof. exact nispm_hidden_responses_masked. Qed.
+Check (C19_nispm_hidden_responses_masked :
+  forall CS msgs C pk bases U ds p ds',
+  Forall bits_top ds ->
+  nispm_gen CS msgs C pk bases U ds = Ok (p, ds') ->
+  (321 <= lm CS + MASK)%Z ->
+  let U' := (if Nat.eqb (length msgs) 1 then [0%N] else option_default [0%N] U) in
+  exists sel, mapM (nthZ bases) U' = Ok sel /\
+    let c := hash_int (str_cat (sel ++ [pk_b pk; c_value C; nm_t p])) in
+    length (nm_s1 p) = length U' /\
+    ((0 < c < 2 ^ 256)%Z ->
+     forall k, (k < length U')%nat ->
+       (2 ^ 64 <= nth k (nm_s1 p) 0 / c - nth (N.to_nat (nth k U' 0%N)) msgs 1)%Z)).
+Print Assumptions C19_nispm_hidden_responses_masked.
